@@ -6,7 +6,7 @@ export CARGO_NET_OFFLINE=true CARGO_TARGET_DIR=/tmp/$name-target
 cd $d || exit 2
 git diff --stat -- src | tail -1
 ( cargo test --offline 2>&1 | grep -E "^test result|FAILED|error" ) > /tmp/$name-verify-tests.log 2>&1
-echo "tests_with_patch: $(grep -c 'test result: ok' /tmp/$name-verify-tests.log) ok-groups, $(grep -c 'FAILED\|failed' /tmp/$name-verify-tests.log) failures"
+echo "tests_with_patch: $(grep -c 'test result: ok' /tmp/$name-verify-tests.log) ok-groups, $(grep -cE "[1-9][0-9]* failed|FAILED" /tmp/$name-verify-tests.log) failures"
 ( cd demo && cargo run --offline >/tmp/$name-demo-with.log 2>&1; echo "demo_with_patch_rc=$?" )
 git apply -R patch.diff || { echo "cannot revert patch"; exit 2; }
 ( cd demo && cargo run --offline >/tmp/$name-demo-without.log 2>&1; echo "demo_without_patch_rc=$?" )
